@@ -862,7 +862,7 @@ theorem hr_searchLoop_parent (s : Store) (v : View) (mode : SlMode) (vol : Ino) 
     all_goals first | exact Or.inl rfl | skip
     all_goals apply key
     all_goals first | exact Or.inl rfl | exact Or.inr (Or.inl rfl) | skip
-    exact Or.inr (Or.inr ⟨_, _, by unfold Edge; assumption⟩)
+    all_goals exact Or.inr (Or.inr ⟨_, _, by unfold Edge; assumption⟩)
 
 /-- the parent returned by the walk is the root of the view or the target of an entry -/
 theorem hr_searchNode_parent_attached (s : Store) (v : View) (root : Ino)
